@@ -14,6 +14,11 @@ func (te *tableEngine) tableGameOpen() error {
 	te.lock.Lock()
 	defer te.lock.Unlock()
 
+	// a table closed or released while waiting for the open-game trigger must not open another hand
+	if te.table.State.Status == TableStateStatus_TableClosed || te.isReleased {
+		return nil
+	}
+
 	if te.table.State.GameState != nil {
 		fmt.Printf("[DEBUG#tableGameOpen] Table (%s) game (%s) with game count (%d) is already opened.\n", te.table.ID, te.table.State.GameState.GameID, te.table.State.GameCount)
 		return nil
